@@ -30,7 +30,7 @@ PID = 'C08'
 FUNCTIONS = {p: ['Recipe.bake', 'Recipe.uses', 'Recipe.transfer', 'Recipe.create_container', 'Recipe.create_solution',
                  'Recipe.create_solution_from', 'Recipe.remove', 'Recipe.dilute', 'Recipe.fill_to', 'RecipeStep.__init__']
              for p in ('C08', 'C09', 'C15', 'C17', 'C07', 'C04')}
-SERVES = {'resolve': ['C08', 'C07', 'C03'], 'same-op': ['C08', 'C07', 'C03'], 'store': ['C08', 'C07', 'C03'], 'names': ['C08'],
+SERVES = {'resolve': ['C08', 'C07', 'C03', 'C17'], 'same-op': ['C08', 'C07', 'C03', 'C17'], 'store': ['C08', 'C07', 'C03', 'C17'], 'names': ['C08'],
           'snapshots': ['C09', 'C15'], 'objects-used': ['C09', 'C15'], 'used': ['C16', 'C08'],
           'substances-used': ['C09', 'C17'], 'trash': ['C09', 'C17', 'C15'], 'frame': ['C04'], 'no-effect-before-bake': ['C08'],
           'safe': ['C08'], 'filed-under-own-name': ['C09', 'C15']}
